@@ -42,8 +42,8 @@ def run(chk, replay):
     chk.trusted = common.TRUSTED_COMMON + ["quiescence discipline of the scheduler harness (one completion released at a time)"]
     chk.assumptions = ["recorded vectors are quiescent snapshots of real runs (finished, stopped, or cut = killed); the JSON round trip "
                        "of the node table through the history store is covered by C06/C08, parameters of the retried run by C11",
-                       "termination and dependency order of the retry run from an arbitrary recorded vector are decided by the "
-                       "correspondence + monitor; the theorems cover the reset set, the start vector, no-orphan and kept steps (partial)"]
+                       "theorems about the retry RUN (order, limit, accounting of reset steps, deadlock freedom, termination) hold for "
+                       "steps without repeatPolicy (NoRep) and under the model's environment assumption that a running command ends"]
     common.lean_obligations(chk, "BdModel/Props/C10.lean", TIE, extra_targets=["BdModel.Sched.Tables"])
     binp, out = common.build_harness("sched")
     if not binp:
